@@ -1,6 +1,386 @@
-//! `vh components`: see /verif/docs/MODULE_CONTRACT.md
+//! `vh components`: compile one source under several subsets of the component options and report, for every
+//! build, how each glyph is stored (glyf: simple / composite + component records) and what it looks like
+//! (every glyph drawn with skrifa at the requested normalized locations) plus its advance. C12.
+//!
+//! stdin: one JSON request per line
+//!   {"tag": "...", "src": "<designspace|ufo|glyphs>", "masks": [0..15],      (default: all 16)
+//!    "locs": [[normalized coords in fvar axis order], ...] | null,           (null: default + all gvar peaks)
+//!    "skip_features": true, "threads": 1, "save_dir": ""}                    (save_dir: keep the fonts there)
+//! mask bits: 1 flatten, 2 decompose (all), 4 decompose_transformed, 8 prefer_simple; a clear bit forces the
+//! option off. production_names is always off so that glyph names stay the source's.
+//! stdout: one JSON line per request
+//!   {"tag", "locs", "runs": [{"mask", "outcome": "ok|error|panic", "message", "same_as": <mask>}
+//!                          | {"mask", "outcome": "ok", "pic": PIC}]}
+//!   PIC = {"names": [..], "glyphs": [{"kind": "simple|composite|empty", "depth": n,
+//!                                     "comps": [[name, xx, yx, xy, yy, dx, dy], ..]}, ..],
+//!          "at": [{"adv": [advance|null per glyph],
+//!                  "draw": [null | [{"p": [[x, y, on], ..], "s": 1|-1, "lv": n, "tol": t}, ..] per glyph]}, ..]}
+//!   Per drawn contour: "p" the closed node cycle (on = 1 on-curve, 0 off-curve) in drawing order, "s" the sign
+//!   of the determinant accumulated along the composite path that produced it (a renderer mirrors the contours
+//!   of a flipped component without reversing them), "lv" the number of component levels on that path and "tol"
+//!   one unit per level (the glyph's own outline is a level), a level's unit being multiplied by the
+//!   magnification of the accumulated 2x2 above it where that is > 1.
+//! Nothing is interpreted here: the comparison is done by checks/c12.py.
+
+use std::io::{BufRead, Write};
+
+use serde::Deserialize;
+use serde_json::{Value, json};
+use skrifa::{
+    MetadataProvider,
+    raw::{
+        FontRef, TableProvider,
+        tables::glyf::{Anchor, Glyph},
+        types::GlyphId,
+    },
+};
+
+use crate::{
+    compile::{CompileReq, compile},
+    fontutil,
+};
+
+#[derive(Debug, Default, Clone, Deserialize)]
+#[serde(default)]
+struct Req {
+    tag: String,
+    src: String,
+    masks: Option<Vec<u32>>,
+    locs: Option<Vec<Vec<f64>>>,
+    skip_features: Option<bool>,
+    threads: Option<usize>,
+    save_dir: String,
+    /// at most this many automatic locations
+    max_locs: Option<usize>,
+}
+
+const OPTS: [(&str, u32); 4] = [
+    ("flatten", 1),
+    ("decompose", 2),
+    ("decompose_transformed", 4),
+    ("prefer_simple", 8),
+];
+
+fn compile_req(req: &Req, mask: u32) -> CompileReq {
+    let mut flags = Vec::new();
+    let mut no_flags = vec!["production_names".to_string()];
+    for (name, bit) in OPTS {
+        if mask & bit != 0 {
+            flags.push(name.to_string());
+        } else {
+            no_flags.push(name.to_string());
+        }
+    }
+    CompileReq {
+        tag: format!("{}:{}", req.tag, mask),
+        src: req.src.clone(),
+        out: if req.save_dir.is_empty() {
+            String::new()
+        } else {
+            format!("{}/{}_{}.ttf", req.save_dir, req.tag.replace('/', "_"), mask)
+        },
+        threads: req.threads.unwrap_or(1),
+        flags,
+        no_flags,
+        skip_features: req.skip_features.unwrap_or(true),
+        ..Default::default()
+    }
+}
+
+#[derive(Clone, Copy)]
+struct M2 {
+    xx: f64,
+    yx: f64,
+    xy: f64,
+    yy: f64,
+}
+
+impl M2 {
+    const ID: M2 = M2 {
+        xx: 1.0,
+        yx: 0.0,
+        xy: 0.0,
+        yy: 1.0,
+    };
+    /// self applied after `o`
+    fn mul(&self, o: &M2) -> M2 {
+        M2 {
+            xx: self.xx * o.xx + self.xy * o.yx,
+            yx: self.yx * o.xx + self.yy * o.yx,
+            xy: self.xx * o.xy + self.xy * o.yy,
+            yy: self.yx * o.xy + self.yy * o.yy,
+        }
+    }
+    fn det(&self) -> f64 {
+        self.xx * self.yy - self.xy * self.yx
+    }
+    fn magnification(&self) -> f64 {
+        (self.xx.abs() + self.xy.abs()).max(self.yx.abs() + self.yy.abs())
+    }
+}
+
+#[derive(Clone, Copy)]
+struct LeafInfo {
+    sign: i32,
+    level: u32,
+    tol: f64,
+}
+
+/// One entry per contour in drawing order (components in order, depth first).
+fn leaf_infos(font: &FontRef, gid: u32, acc: M2, level: u32, tol: f64, out: &mut Vec<LeafInfo>) -> Option<()> {
+    if level > 16 {
+        return None;
+    }
+    let loca = font.loca(None).ok()?;
+    let glyf = font.glyf().ok()?;
+    match loca.get_glyf(GlyphId::new(gid), &glyf).ok()? {
+        None => {}
+        Some(Glyph::Simple(s)) => {
+            let info = LeafInfo {
+                sign: if acc.det() < 0.0 { -1 } else { 1 },
+                level,
+                tol,
+            };
+            for _ in 0..s.number_of_contours().max(0) {
+                out.push(info);
+            }
+        }
+        Some(Glyph::Composite(c)) => {
+            for k in c.components() {
+                let t = M2 {
+                    xx: k.transform.xx.to_f32() as f64,
+                    yx: k.transform.yx.to_f32() as f64,
+                    xy: k.transform.xy.to_f32() as f64,
+                    yy: k.transform.yy.to_f32() as f64,
+                };
+                let t = acc.mul(&t);
+                leaf_infos(font, k.glyph.to_u32(), t, level + 1, tol + t.magnification().max(1.0), out)?;
+            }
+        }
+    }
+    Some(())
+}
+
+fn composite_depth(font: &FontRef, gid: u32, guard: u32) -> u32 {
+    if guard > 16 {
+        return guard;
+    }
+    let (Ok(loca), Ok(glyf)) = (font.loca(None), font.glyf()) else {
+        return 0;
+    };
+    match loca.get_glyf(GlyphId::new(gid), &glyf) {
+        Ok(Some(Glyph::Composite(c))) => {
+            1 + c
+                .components()
+                .map(|k| composite_depth(font, k.glyph.to_u32(), guard + 1))
+                .max()
+                .unwrap_or(0)
+        }
+        _ => 0,
+    }
+}
+
+/// Pen commands -> closed node cycles [[x, y, on], ..]
+fn contours_of(cmds: &[Value]) -> Vec<Vec<[f64; 3]>> {
+    let mut out: Vec<Vec<[f64; 3]>> = Vec::new();
+    let num = |v: &Value, i: usize| v.get(i).and_then(|x| x.as_f64()).unwrap_or(f64::NAN);
+    for c in cmds {
+        match c.get(0).and_then(|x| x.as_str()).unwrap_or("") {
+            "M" => out.push(vec![[num(c, 1), num(c, 2), 1.0]]),
+            "L" => {
+                if let Some(cur) = out.last_mut() {
+                    cur.push([num(c, 1), num(c, 2), 1.0]);
+                }
+            }
+            "Q" => {
+                if let Some(cur) = out.last_mut() {
+                    cur.push([num(c, 1), num(c, 2), 0.0]);
+                    cur.push([num(c, 3), num(c, 4), 1.0]);
+                }
+            }
+            "C" => {
+                if let Some(cur) = out.last_mut() {
+                    cur.push([num(c, 1), num(c, 2), 0.0]);
+                    cur.push([num(c, 3), num(c, 4), 0.0]);
+                    cur.push([num(c, 5), num(c, 6), 1.0]);
+                }
+            }
+            _ => {
+                // "Z": drop an explicit return to the start point
+                if let Some(cur) = out.last_mut()
+                    && cur.len() > 1
+                    && cur[0] == cur[cur.len() - 1]
+                {
+                    cur.pop();
+                }
+            }
+        }
+    }
+    out
+}
+
+/// default location + every gvar peak tuple (the locations of the sources some glyph has)
+fn auto_locs(font: &FontRef, ng: u32, max: usize) -> Vec<Vec<f64>> {
+    let n_axes = font.axes().len();
+    let mut locs: Vec<Vec<f64>> = vec![vec![0.0; n_axes]];
+    if n_axes == 0 {
+        return vec![vec![]];
+    }
+    if let Ok(gvar) = font.gvar() {
+        for gid in 0..ng {
+            let Ok(Some(data)) = gvar.glyph_variation_data(GlyphId::new(gid)) else {
+                continue;
+            };
+            for t in data.tuples() {
+                let peak = t.peak();
+                let v: Vec<f64> = (0..n_axes)
+                    .map(|i| peak.get(i).map(|x| x.to_f32() as f64).unwrap_or(0.0))
+                    .collect();
+                if !locs.contains(&v) {
+                    locs.push(v);
+                }
+            }
+        }
+    }
+    locs.sort_by(|a, b| a.partial_cmp(b).unwrap_or(std::cmp::Ordering::Equal));
+    if locs.len() > max {
+        // keep the default and an evenly spread selection of the rest
+        let dflt = vec![0.0; n_axes];
+        let rest: Vec<Vec<f64>> = locs.iter().filter(|l| **l != dflt).cloned().collect();
+        let step = rest.len() as f64 / (max - 1) as f64;
+        let mut pick = vec![dflt];
+        for i in 0..(max - 1) {
+            pick.push(rest[(i as f64 * step) as usize].clone());
+        }
+        locs = pick;
+    }
+    locs
+}
+
+fn picture(data: &[u8], locs: &[Vec<f64>]) -> Result<Value, String> {
+    let font = FontRef::new(data).map_err(|e| format!("cannot parse font: {e}"))?;
+    let names = fontutil::glyph_names(&font);
+    let ng = names.len() as u32;
+    let mut glyphs = Vec::new();
+    let mut infos: Vec<Option<Vec<LeafInfo>>> = Vec::new();
+    let (loca, glyf) = (
+        font.loca(None).map_err(|e| e.to_string())?,
+        font.glyf().map_err(|e| e.to_string())?,
+    );
+    for gid in 0..ng {
+        let g = loca.get_glyf(GlyphId::new(gid), &glyf);
+        glyphs.push(match g {
+            Ok(None) => json!({"kind": "empty", "depth": 0, "comps": []}),
+            Ok(Some(Glyph::Simple(_))) => json!({"kind": "simple", "depth": 0, "comps": []}),
+            Ok(Some(Glyph::Composite(c))) => {
+                let comps: Vec<Value> = c
+                    .components()
+                    .map(|k| {
+                        let (dx, dy) = match k.anchor {
+                            Anchor::Offset { x, y } => (x as i32, y as i32),
+                            Anchor::Point { base, component } => (base as i32, component as i32),
+                        };
+                        json!([names.get(k.glyph.to_u32() as usize), k.transform.xx.to_f32(), k.transform.yx.to_f32(),
+                               k.transform.xy.to_f32(), k.transform.yy.to_f32(), dx, dy])
+                    })
+                    .collect();
+                json!({"kind": "composite", "depth": composite_depth(&font, gid, 0), "comps": comps})
+            }
+            Err(e) => json!({"kind": "error", "message": e.to_string()}),
+        });
+        let mut v = Vec::new();
+        infos.push(leaf_infos(&font, gid, M2::ID, 0, 1.0, &mut v).map(|_| v));
+    }
+    let mut at = Vec::new();
+    for loc in locs {
+        let coords = fontutil::f2dot14s(loc);
+        let mut adv = Vec::new();
+        let mut draw = Vec::new();
+        for gid in 0..ng {
+            adv.push(json!(fontutil::h_metrics(&font, gid, &coords).0));
+            draw.push(match fontutil::draw(&font, gid, &coords) {
+                None => Value::Null,
+                Some(cmds) => {
+                    let cs = contours_of(&cmds);
+                    let info = infos[gid as usize].as_ref().filter(|v| v.len() == cs.len());
+                    Value::Array(
+                        cs.iter()
+                            .enumerate()
+                            .map(|(i, p)| match info {
+                                Some(v) => json!({"p": p, "s": v[i].sign, "lv": v[i].level, "tol": v[i].tol}),
+                                None => json!({"p": p, "s": Value::Null, "lv": Value::Null, "tol": Value::Null}),
+                            })
+                            .collect(),
+                    )
+                }
+            });
+        }
+        at.push(json!({"adv": adv, "draw": draw}));
+    }
+    Ok(json!({"names": names, "glyphs": glyphs, "at": at}))
+}
+
+fn handle(req: &Req) -> Value {
+    let masks: Vec<u32> = req.masks.clone().unwrap_or_else(|| (0..16).collect());
+    let mut locs: Option<Vec<Vec<f64>>> = req.locs.clone();
+    let mut runs: Vec<Value> = Vec::new();
+    let mut seen: Vec<(u32, String)> = Vec::new();
+    for mask in masks {
+        let (res, bytes) = compile(&compile_req(req, mask));
+        let Some(bytes) = bytes else {
+            runs.push(json!({"mask": mask, "outcome": res.outcome, "message": res.message}));
+            continue;
+        };
+        if locs.is_none()
+            && let Ok(font) = FontRef::new(&bytes)
+        {
+            let ng = font.maxp().map(|m| m.num_glyphs()).unwrap_or(0) as u32;
+            locs = Some(auto_locs(&font, ng, req.max_locs.unwrap_or(9)));
+        }
+        let pic = std::panic::catch_unwind(std::panic::AssertUnwindSafe(|| {
+            picture(&bytes, locs.as_deref().unwrap_or(&[]))
+        }));
+        match pic {
+            Ok(Ok(pic)) => {
+                let text = pic.to_string();
+                if let Some((m0, _)) = seen.iter().find(|(_, t)| *t == text) {
+                    runs.push(json!({"mask": mask, "outcome": "ok", "same_as": m0}));
+                } else {
+                    runs.push(json!({"mask": mask, "outcome": "ok", "pic": pic}));
+                    seen.push((mask, text));
+                }
+            }
+            Ok(Err(e)) => runs.push(json!({"mask": mask, "outcome": "unreadable", "message": e})),
+            Err(p) => runs.push(
+                json!({"mask": mask, "outcome": "unreadable", "message": crate::compile::panic_message(p)}),
+            ),
+        }
+    }
+    json!({"tag": req.tag, "locs": locs, "runs": runs})
+}
 
 pub fn run(_args: &[String]) -> i32 {
-    eprintln!("vh components: not implemented yet");
-    2
+    if std::env::var("VH_PANIC_VERBOSE").is_err() {
+        std::panic::set_hook(Box::new(|_| {}));
+    }
+    let stdin = std::io::stdin();
+    let stdout = std::io::stdout();
+    for line in stdin.lock().lines() {
+        let Ok(line) = line else { break };
+        if line.trim().is_empty() {
+            continue;
+        }
+        let req: Req = match serde_json::from_str(&line) {
+            Ok(r) => r,
+            Err(e) => {
+                eprintln!("bad request: {e}");
+                return 2;
+            }
+        };
+        let res = handle(&req);
+        let mut out = stdout.lock();
+        let _ = writeln!(out, "{res}");
+        let _ = out.flush();
+    }
+    0
 }
